@@ -298,6 +298,33 @@ func ruleR12_4(w *World, r *Report) {
 			continue
 		}
 		allInstrs(fn, func(ins ssa.Instruction) {
+			// the key handed to a shared numbering step (`vars.add(dummyVar(name))`) is the key registered
+			if c, isC := ins.(*ssa.Call); isC {
+				g := c.Call.StaticCallee()
+				if g == nil || !m.inPkg[g] || !returnsFreshIndex(g) {
+					return
+				}
+				for _, a := range c.Call.Args {
+					st, ok := a.Type().Underlying().(*types.Struct)
+					if !ok {
+						continue
+					}
+					flag := -1
+					for i := 0; i < st.NumFields(); i++ {
+						if b, isB := st.Field(i).Type().Underlying().(*types.Basic); isB && b.Kind() == types.Bool {
+							flag = i
+						}
+					}
+					if flag < 0 {
+						continue
+					}
+					n++
+					key := fmt.Sprintf("%s registers helper #%d", w.FuncName(fn), n)
+					r.Check(structFieldIsTrue(w, a, flag, 0), "R12.4", key, w.InstrPos(c), "key built with the dummy flag set",
+						"the helper index is registered under a key whose dummy flag is not set: a variable of the formula that happens to carry the generated name is looked up as the same key and shares the helper's index (and gets no name comment)")
+				}
+				return
+			}
 			mu, ok := ins.(*ssa.MapUpdate)
 			if !ok {
 				return
@@ -1431,7 +1458,32 @@ func ruleR14_4(w *World, r *Report) {
 	r.Rule("R14.4", "in the conflict analysers, a loop that walks the trail backwards (index decremented, then used) either tests the index against 0 or searches for a member of a marked set whose remaining population is kept positive by the enclosing loop (`for nbLvl > 1`)", 2)
 	n := 0
 	perFn := map[*ssa.Function]int{}
-	for _, fn := range conflictAnalysers(w) {
+	// the analysers and the helpers each of them hands part of its walk to (solver functions it calls directly that
+	// are not analysers themselves); a walk is counted for, and named after, the analyser it belongs to
+	type unit struct{ fn, owner *ssa.Function }
+	var units []unit
+	isAn := map[*ssa.Function]bool{}
+	for _, an := range conflictAnalysers(w) {
+		isAn[an] = true
+	}
+	seenHelper := map[*ssa.Function]bool{}
+	for _, an := range conflictAnalysers(w) {
+		units = append(units, unit{an, an})
+		var hs []*ssa.Function
+		for _, ci := range callsIn(an) {
+			h := ci.Common().StaticCallee()
+			if h != nil && w.PkgName(h) == "solver" && !isAn[h] && !seenHelper[h] && len(h.Blocks) > 0 {
+				seenHelper[h] = true
+				hs = append(hs, h)
+			}
+		}
+		sortFns(hs)
+		for _, h := range hs {
+			units = append(units, unit{h, an})
+		}
+	}
+	for _, u := range units {
+		fn := u.fn
 		for _, h := range loopHeaders(fn) {
 			body := loopBlocks(fn, h)
 			// a decrementing index used on the trail inside this loop, the decrement being in this loop too
@@ -1483,8 +1535,8 @@ func ruleR14_4(w *World, r *Report) {
 				continue
 			}
 			n++
-			perFn[fn]++
-			key := fmt.Sprintf("%s backward trail walk #%d", w.FuncName(fn), perFn[fn])
+			perFn[u.owner]++
+			key := fmt.Sprintf("%s backward trail walk #%d", w.FuncName(u.owner), perFn[u.owner])
 			// evidence A: the index (or its phi) is compared with 0 somewhere in the loop
 			evid := ""
 			for b := range body {
@@ -1570,36 +1622,61 @@ func ruleR13_10(w *World, r *Report) {
 	}
 	n := 0
 	var bad []string
+	// the reading loop of ParseCNF, and the helpers it hands the tokens of a line to (`pb.parseFields(pending, fields)`)
+	type scanUnit struct {
+		f      *ssa.Function
+		inLoop bool
+	}
+	units := []scanUnit{{fn, true}}
 	for _, ci := range callsIn(fn) {
-		c, ok := ci.(*ssa.Call)
-		if !ok || !inLoop(fn, c.Block()) {
+		h := ci.Common().StaticCallee()
+		if h == nil || w.PkgName(h) != "explain" || len(h.Blocks) == 0 || isSink(h) || !inLoop(fn, ci.Block()) {
 			continue
 		}
-		sink := false
-		for _, callee := range w.Callees[c] {
-			if isSink(callee) {
-				sink = true
+		callsSink := false
+		for _, cj := range callsIn(h) {
+			for _, callee := range w.Callees[cj] {
+				if isSink(callee) {
+					callsSink = true
+				}
 			}
 		}
-		if !sink {
-			continue
+		if callsSink {
+			units = append(units, scanUnit{h, false})
 		}
-		n++
-		okc := false
-		for _, ec := range dominatingConds(c.Block()) {
-			bo, isB := ec.Cond.(*ssa.BinOp)
-			if !isB || (bo.Op != token.EQL && bo.Op != token.NEQ) || (bo.Op == token.EQL) != ec.True {
+	}
+	for _, u := range units {
+		for _, ci := range callsIn(u.f) {
+			c, ok := ci.(*ssa.Call)
+			if !ok || (u.inLoop && !inLoop(u.f, c.Block())) {
 				continue
 			}
-			if s, isS := constString(bo.Y); isS && s == "0" {
-				okc = true
+			sink := false
+			for _, callee := range w.Callees[c] {
+				if isSink(callee) {
+					sink = true
+				}
 			}
-			if k, isK := constInt(bo.Y); isK && k == 0 && typeShort(bo.X.Type()) == "int" {
-				okc = true
+			if !sink {
+				continue
 			}
-		}
-		if !okc {
-			bad = append(bad, w.InstrPos(c))
+			n++
+			okc := false
+			for _, ec := range dominatingConds(c.Block()) {
+				bo, isB := ec.Cond.(*ssa.BinOp)
+				if !isB || (bo.Op != token.EQL && bo.Op != token.NEQ) || (bo.Op == token.EQL) != ec.True {
+					continue
+				}
+				if s, isS := constString(bo.Y); isS && s == "0" {
+					okc = true
+				}
+				if k, isK := constInt(bo.Y); isK && k == 0 && typeShort(bo.X.Type()) == "int" {
+					okc = true
+				}
+			}
+			if !okc {
+				bad = append(bad, w.InstrPos(c))
+			}
 		}
 	}
 	key := "explain.ParseCNF closes clauses at the terminator"
